@@ -230,8 +230,8 @@ fn main() {
                 d.reset();
                 for ms in scn["steps"].as_array().expect("steps") {
                     let ms = ms.as_array().expect("message list");
-                    // a message with t = 0 is the spec's Touch (cancel request recorded); only orders have one
-                    if ms.len() == 1 && i(&ms[0], "t") == 0 {
+                    // a message with t = -1 is the spec's Touch (cancel request recorded); only orders have one
+                    if ms.len() == 1 && i(&ms[0], "t") == -1 {
                         if s(&ms[0], "item").starts_with("ord_") {
                             d.touch(s(&ms[0], "item"));
                         }
